@@ -47,42 +47,67 @@ theorem SegAt.nil (code : List Instr) (b : Nat) : SegAt code b [] := by
 
 /-! ### Running -/
 
-/-- the local machine gets from `(pc, stk)` to `(pc', stk')` in some number of turns of the
-    interpreter loop, none of which touches the heap -/
-inductive Exec (fn : Fn) (upv : List Val) (h : Heap) : Nat → List Val → Nat → List Val → Prop where
-  | refl (pc : Nat) (stk : List Val) : Exec fn upv h pc stk pc stk
-  | cons {pc stk pc₁ stk₁ pc₂ stk₂} :
+mutual
+/-- The frame of a closure of `fn` (upvalues `upv`) gets from `(pc, stk)` to `(pc', stk')`:
+    turns of the interpreter loop that leave the heap alone (`cons`), and whole calls of exact
+    arity (`call`: the callee, in its own frame, returns `v`, which replaces function and
+    arguments). -/
+inductive Exec : Fn → List Val → Heap → Nat → List Val → Nat → List Val → Prop where
+  | refl {fn upv h} (pc : Nat) (stk : List Val) : Exec fn upv h pc stk pc stk
+  | cons {fn upv h pc stk pc₁ stk₁ pc₂ stk₂} :
       stepLocal fn upv pc stk h = .next pc₁ stk₁ h → Exec fn upv h pc₁ stk₁ pc₂ stk₂ →
       Exec fn upv h pc stk pc₂ stk₂
+  | call {fn upv h pc stk id args g gupv v pc₂ stk₂} :
+      fn.instrs[pc]? = some (.call args.length) → h.clos[id]? = some (g, gupv) →
+      g.args = args.length → Returns g gupv h args v →
+      Exec fn upv h (pc + 1) (stk ++ [v]) pc₂ stk₂ →
+      Exec fn upv h pc (stk ++ [.cref id] ++ args) pc₂ stk₂
+/-- A closure of `g` entered with `args` returns `v` to its caller: it reaches a `Return` with
+    `v` on top, or it tail-calls (exact arity) a closure that returns `v`. -/
+inductive Returns : Fn → List Val → Heap → List Val → Val → Prop where
+  | ret {g gupv h args pcR s v} :
+      Exec g gupv h 0 args pcR (s ++ [v]) → g.instrs[pcR]? = some .ret → Returns g gupv h args v
+  | tail {g gupv h args pc' s id args' g' gupv' v} :
+      Exec g gupv h 0 args pc' (s ++ [.cref id] ++ args') →
+      g.instrs[pc']? = some (.tailCall args'.length) → h.clos[id]? = some (g', gupv') →
+      g'.args = args'.length → Returns g' gupv' h args' v → Returns g gupv h args v
+end
 
-/-- the local machine runs (heap untouched) into a turn that fails with `e` -/
-def ExecErr (fn : Fn) (upv : List Val) (h : Heap) (pc : Nat) (stk : List Val) (e : Err) : Prop :=
-  ∃ pc' stk', Exec fn upv h pc stk pc' stk' ∧ stepLocal fn upv pc' stk' h = .err e
+/-- the frame fails with `e`: in one of its own turns, or inside a callee -/
+inductive ExecErr : Fn → List Val → Heap → Nat → List Val → Err → Prop where
+  | here {fn upv h pc stk pc' stk' e} :
+      Exec fn upv h pc stk pc' stk' → stepLocal fn upv pc' stk' h = .err e →
+      ExecErr fn upv h pc stk e
+  | incall {fn upv h pc stk pc' s id args g gupv e} :
+      Exec fn upv h pc stk pc' (s ++ [.cref id] ++ args) →
+      (fn.instrs[pc']? = some (.call args.length) ∨ fn.instrs[pc']? = some (.tailCall args.length)) →
+      h.clos[id]? = some (g, gupv) → g.args = args.length → ExecErr g gupv h 0 args e →
+      ExecErr fn upv h pc stk e
 
-theorem Exec.trans {fn upv h pc₁ s₁ pc₂ s₂ pc₃ s₃}
-    (a : Exec fn upv h pc₁ s₁ pc₂ s₂) (b : Exec fn upv h pc₂ s₂ pc₃ s₃) :
-    Exec fn upv h pc₁ s₁ pc₃ s₃ := by
-  induction a with
-  | refl => exact b
-  | cons hs _ ih => exact .cons hs (ih b)
+/-- the frame, from `(pc, stk)`, leaves by a tail call whose callee returns `v` -/
+def TailRet (fn : Fn) (upv : List Val) (h : Heap) (pc : Nat) (stk : List Val) (v : Val) : Prop :=
+  ∃ pc' s id args g gupv, Exec fn upv h pc stk pc' (s ++ [.cref id] ++ args) ∧
+    fn.instrs[pc']? = some (.tailCall args.length) ∧ h.clos[id]? = some (g, gupv) ∧
+    g.args = args.length ∧ Returns g gupv h args v
+
+theorem Exec.trans {fn upv h pc₁ s₁ pc₂ s₂ pc₃ s₃} :
+    Exec fn upv h pc₁ s₁ pc₂ s₂ → Exec fn upv h pc₂ s₂ pc₃ s₃ → Exec fn upv h pc₁ s₁ pc₃ s₃
+  | .refl _ _, b => b
+  | .cons hs a, b => .cons hs (a.trans b)
+  | .call hi hg hn hr a, b => .call hi hg hn hr (a.trans b)
 
 theorem Exec.thenErr {fn upv h pc₁ s₁ pc₂ s₂ e}
     (a : Exec fn upv h pc₁ s₁ pc₂ s₂) (b : ExecErr fn upv h pc₂ s₂ e) :
     ExecErr fn upv h pc₁ s₁ e := by
-  obtain ⟨pc', stk', hb, he⟩ := b
-  exact ⟨pc', stk', a.trans hb, he⟩
+  cases b with
+  | here hb he => exact .here (a.trans hb) he
+  | incall hb hi hg hn he => exact .incall (a.trans hb) hi hg hn he
 
-/-- `Exec` is what `runLocal` computes -/
-theorem Exec.runLocal {fn upv h pc s pc' s'} (a : Exec fn upv h pc s pc' s') :
-    ∃ n, ∀ m, runLocal fn upv (n + m) pc s h = runLocal fn upv m pc' s' h := by
-  induction a with
-  | refl => exact ⟨0, by simp⟩
-  | cons hs _ ih =>
-    obtain ⟨n, hn⟩ := ih
-    refine ⟨n + 1, fun m => ?_⟩
-    rw [Nat.add_right_comm]
-    simp only [Bytecode.runLocal, hs]
-    exact hn m
+theorem Exec.thenTailRet {fn upv h pc₁ s₁ pc₂ s₂ v}
+    (a : Exec fn upv h pc₁ s₁ pc₂ s₂) (b : TailRet fn upv h pc₂ s₂ v) :
+    TailRet fn upv h pc₁ s₁ v := by
+  obtain ⟨pc', s, id, args, g, gupv, hb, hi, hg, hn, hr⟩ := b
+  exact ⟨pc', s, id, args, g, gupv, a.trans hb, hi, hg, hn, hr⟩
 
 theorem Exec.to {fn upv h pc s pc' s' q t} (a : Exec fn upv h pc s pc' s') (hp : pc' = q)
     (hs : s' = t) : Exec fn upv h pc s q t := by
@@ -101,7 +126,42 @@ theorem Exec.step {fn upv h pc stk i pc' stk'}
 theorem ExecErr.step {fn upv h pc stk i e}
     (hf : fn.instrs[pc]? = some i)
     (hs : stepInstr fn upv i pc stk h = .err e) : ExecErr fn upv h pc stk e :=
-  ⟨pc, stk, .refl _ _, by simp [stepLocal, hf, hs]⟩
+  .here (.refl _ _) (by simp [stepLocal, hf, hs])
+
+/-- How the code of an expression ends: at `pcE` with the value on top of `stkE`, or — only for
+    code compiled in tail position — by a tail call whose callee returns the value to the
+    caller of this frame. -/
+def Done (fn : Fn) (upv : List Val) (h : Heap) (tail : Bool) (pc : Nat) (stk : List Val)
+    (pcE : Nat) (stkE : List Val) (v : Val) : Prop :=
+  Exec fn upv h pc stk pcE (stkE ++ [v]) ∨ (tail = true ∧ TailRet fn upv h pc stk v)
+
+theorem Done.of_exec {fn upv h tail pc stk pcE stkE v}
+    (a : Exec fn upv h pc stk pcE (stkE ++ [v])) : Done fn upv h tail pc stk pcE stkE v := Or.inl a
+
+theorem Done.prepend {fn upv h tail pc stk pc₁ stk₁ pcE stkE v}
+    (a : Exec fn upv h pc stk pc₁ stk₁) (d : Done fn upv h tail pc₁ stk₁ pcE stkE v) :
+    Done fn upv h tail pc stk pcE stkE v := by
+  rcases d with d | ⟨ht, d⟩
+  · exact Or.inl (a.trans d)
+  · exact Or.inr ⟨ht, a.thenTailRet d⟩
+
+theorem Done.andThen {fn upv h tail pc stk pc₁ s₁ pc₂ s₂ v}
+    (d : Done fn upv h tail pc stk pc₁ s₁ v)
+    (a : Exec fn upv h pc₁ (s₁ ++ [v]) pc₂ (s₂ ++ [v])) : Done fn upv h tail pc stk pc₂ s₂ v := by
+  rcases d with d | d
+  · exact Or.inl (d.trans a)
+  · exact Or.inr d
+
+theorem Done.to {fn upv h tail pc stk pcE stkE v q t}
+    (d : Done fn upv h tail pc stk pcE stkE v) (hp : pcE = q) (hs : stkE = t) :
+    Done fn upv h tail pc stk q t v := by
+  subst hp; subst hs; exact d
+
+theorem Done.exec {fn upv h pc stk pcE stkE v}
+    (d : Done fn upv h false pc stk pcE stkE v) : Exec fn upv h pc stk pcE (stkE ++ [v]) := by
+  rcases d with d | ⟨ht, _⟩
+  · exact d
+  · cases ht
 
 /-! ### Stack helpers -/
 
@@ -185,19 +245,42 @@ theorem prefix_getElem? {α} {l₁ l₂ : List α} {k : Nat} {a : α} (h : l₁ 
     · rw [List.getElem?_eq_none h'] at hk; cases hk
   rw [List.getElem?_append_left this]; exact hk
 
-/-- every variable of the environment lives in the stack slot the compiler recorded for it, or,
-    when it is not a stack variable of this function, in the upvalue of that name -/
-def Agree (fv : List Sym) (upv : List Val) (scopes : List (List (Sym × Nat))) (ρ : Env)
-    (stk : List Val) : Prop :=
-  ∀ x v, lookup ρ x = some v →
-    (∃ i, lookupScopes scopes x = some i ∧ stk[i]? = some v) ∨
-    (lookupScopes scopes x = none ∧ ∃ k, indexOfSym fv x = some k ∧ upv[k]? = some v)
+/-- **CloRel**: the `evalCore` closure `v` (member `idx` of the group `cs` over `env`, taking `n`
+    parameters) is represented by the heap closure `v' = cref id`: a function of arity `n` with
+    upvalues, such that *calling it is calling the closure* — entered with any `n` arguments it
+    returns to its caller the value `evalCore` assigns to the body under `params ↦ args`, and
+    fails with the arithmetic error when the body does. -/
+def CloRel (h : Heap) (n : Nat) (v v' : Val) : Prop :=
+  ∃ cs idx env id g gupv nm params body,
+    v = .clos cs idx env ∧ v' = .cref id ∧ h.clos[id]? = some (g, gupv) ∧
+    cs[idx]? = some (nm, params, body) ∧ params.length = n ∧ n ≠ 0 ∧ g.args = n ∧
+    ∀ (fuel : Nat) (vs : List Val), vs.length = n →
+      (∀ r, evalCore fuel (bindAll params vs (recEnv cs env)) body = .ok r → Returns g gupv h vs r) ∧
+      (evalCore fuel (bindAll params vs (recEnv cs env)) body = .error .arith →
+        ExecErr g gupv h 0 vs .arith)
 
-theorem Agree.append {fv upv scopes ρ stk} (h : Agree fv upv scopes ρ stk) (l : List Val) :
-    Agree fv upv scopes ρ (stk ++ l) := by
+/-- how the machine represents the value of variable `x`: function variables (those of `Φ`, with
+    their arity) by a related heap closure, all others by the value itself -/
+def RV (h : Heap) (Φ : List (Sym × Nat)) (x : Sym) (v v' : Val) : Prop :=
+  match lookupScope Φ x with
+  | none => v = v'
+  | some n => CloRel h n v v'
+
+/-- every variable of the environment lives in the stack slot the compiler recorded for it, or,
+    when it is not a stack variable of this function and the function refers to it, in the
+    upvalue of that name -/
+def Agree (h : Heap) (Φ : List (Sym × Nat)) (fv : List Sym) (upv : List Val)
+    (scopes : List (List (Sym × Nat))) (ρ : Env) (stk : List Val) : Prop :=
+  ∀ x v, lookup ρ x = some v →
+    (∃ i v', lookupScopes scopes x = some i ∧ stk[i]? = some v' ∧ RV h Φ x v v') ∨
+    (lookupScopes scopes x = none ∧
+      ∀ k, indexOfSym fv x = some k → ∃ v', upv[k]? = some v' ∧ RV h Φ x v v')
+
+theorem Agree.append {h Φ fv upv scopes ρ stk} (ha : Agree h Φ fv upv scopes ρ stk) (l : List Val) :
+    Agree h Φ fv upv scopes ρ (stk ++ l) := by
   intro x v hx
-  rcases h x v hx with ⟨i, hi, hv⟩ | hr
-  · refine Or.inl ⟨i, hi, ?_⟩
+  rcases ha x v hx with ⟨i, v', hi, hv, hr⟩ | hr
+  · refine Or.inl ⟨i, v', hi, ?_, hr⟩
     have : i < stk.length := by
       rcases Nat.lt_or_ge i stk.length with h' | h'
       · exact h'
@@ -205,15 +288,15 @@ theorem Agree.append {fv upv scopes ρ stk} (h : Agree fv upv scopes ρ stk) (l 
     rw [List.getElem?_append_left this]; exact hv
   · exact Or.inr hr
 
-theorem Agree.enter {fv upv scopes ρ stk} (h : Agree fv upv scopes ρ stk) :
-    Agree fv upv ([] :: scopes) ρ stk := by
+theorem Agree.enter {h Φ fv upv scopes ρ stk} (ha : Agree h Φ fv upv scopes ρ stk) :
+    Agree h Φ fv upv ([] :: scopes) ρ stk := by
   intro x v hx
-  rcases h x v hx with ⟨i, hi, hv⟩ | ⟨hn, hr⟩
-  · exact Or.inl ⟨i, by simpa [lookupScopes, lookupScope] using hi, hv⟩
+  rcases ha x v hx with ⟨i, v', hi, hv, hr⟩ | ⟨hn, hr⟩
+  · exact Or.inl ⟨i, v', by simpa [lookupScopes, lookupScope] using hi, hv, hr⟩
   · exact Or.inr ⟨by simpa [lookupScopes, lookupScope] using hn, hr⟩
 
 /-- what `compileBody` guarantees for one expression -/
-def BodySpec (seIdx : Nat) (e : Expr) : Prop :=
+def BodySpec (seIdx : Nat) (Φ : List (Sym × Nat)) (e : Expr) : Prop :=
   ∀ (tail : Bool) (b : Nat) (st : FState) (S : List (Sym × Nat)) (rest : List (List (Sym × Nat))),
     st.scopes = S :: rest →
     ∃ N : List (Sym × Nat),
@@ -224,14 +307,14 @@ def BodySpec (seIdx : Nat) (e : Expr) : Prop :=
         (stk : List Val),
         SegAt fn.instrs b (compileBody seIdx e tail b st).1 →
         Tables (compileBody seIdx e tail b st).2 fn fv →
-        stk.length = st.stackSize → Agree fv upv st.scopes ρ stk → lookup ρ dummySym = none →
+        stk.length = st.stackSize → Agree h Φ fv upv st.scopes ρ stk → lookup ρ dummySym = none →
         (∀ v, evalCore fuel ρ e = .ok v →
           ∃ L : List Val, L.length = N.length ∧
-            Exec fn upv h b stk (b + (compileBody seIdx e tail b st).1.length) (stk ++ L ++ [v])) ∧
+            Done fn upv h tail b stk (b + (compileBody seIdx e tail b st).1.length) (stk ++ L) v) ∧
         (evalCore fuel ρ e = .error .arith → ExecErr fn upv h b stk .arith)
 
 /-- what `compile` (= `finishScope ∘ compileBody ∘ enterScope`) guarantees -/
-def WrapSpec (seIdx : Nat) (e : Expr) : Prop :=
+def WrapSpec (seIdx : Nat) (Φ : List (Sym × Nat)) (e : Expr) : Prop :=
   ∀ (tail : Bool) (b : Nat) (st : FState),
       (compileE seIdx e tail b st).2.scopes = st.scopes ∧
       (compileE seIdx e tail b st).2.stackSize = st.stackSize + 1 ∧
@@ -240,9 +323,9 @@ def WrapSpec (seIdx : Nat) (e : Expr) : Prop :=
         (stk : List Val),
         SegAt fn.instrs b (compileE seIdx e tail b st).1 →
         Tables (compileE seIdx e tail b st).2 fn fv →
-        stk.length = st.stackSize → Agree fv upv st.scopes ρ stk → lookup ρ dummySym = none →
+        stk.length = st.stackSize → Agree h Φ fv upv st.scopes ρ stk → lookup ρ dummySym = none →
         (∀ v, evalCore fuel ρ e = .ok v →
-            Exec fn upv h b stk (b + (compileE seIdx e tail b st).1.length) (stk ++ [v])) ∧
+            Done fn upv h tail b stk (b + (compileE seIdx e tail b st).1.length) stk v) ∧
         (evalCore fuel ρ e = .error .arith → ExecErr fn upv h b stk .arith)
 
 theorem adjustSize_slide (n m : Nat) : adjustSize (.slide n) m = m - n := by
@@ -257,7 +340,8 @@ theorem step_slide (fn : Fn) (upv : List Val) (pc : Nat) (s L : List Val) (v : V
   have h3 : ¬ (s.length + (n + 1) < n + 1) := by omega
   simp [stepInstr, h2, hL, h3]
 
-theorem wrap_of_body {seIdx : Nat} {e : Expr} (hb : BodySpec seIdx e) : WrapSpec seIdx e := by
+theorem wrap_of_body {seIdx : Nat} {Φ : List (Sym × Nat)} {e : Expr} (hb : BodySpec seIdx Φ e) :
+    WrapSpec seIdx Φ e := by
   intro tail b st
   obtain ⟨N, hsc, hss, hext, hdyn⟩ := hb tail b st.enterScope [] st.scopes rfl
   have hex : (compileBody seIdx e tail b st.enterScope).2.exitScope =
@@ -290,10 +374,9 @@ theorem wrap_of_body {seIdx : Nat} {e : Expr} (hb : BodySpec seIdx e) : WrapSpec
       simpa [slideCode, h0] using hex
     · have hs := hseg.right
       simp only [slideCode, h0, if_false] at hs ⊢
-      refine hex.trans ?_
       have := Exec.step (fn := fn) (upv := upv) (h := h) hs.head
         (step_slide fn upv _ stk L v h N.length hL)
-      simpa [Nat.add_assoc] using this
+      exact (hex.andThen this).to (by simp [Nat.add_assoc]) rfl
 
 /-! ### Unfolding `compileBody` -/
 
@@ -447,16 +530,18 @@ theorem evalList_length : ∀ (fuel : Nat) (ρ : Env) (es : List Expr) (vs : Lis
         simp at h; subst h
         simp [evalList_length fuel ρ es vs' hvs]
 
-theorem Agree.bind {fv upv S rest ρ stk x v} (h : Agree fv upv (S :: rest) ρ stk) :
-    Agree fv upv (((x, stk.length) :: S) :: rest) ((x, v) :: ρ) (stk ++ [v]) := by
+theorem Agree.bind {h Φ fv upv S rest ρ stk x v} (ha : Agree h Φ fv upv (S :: rest) ρ stk)
+    (hx : lookupScope Φ x = none) :
+    Agree h Φ fv upv (((x, stk.length) :: S) :: rest) ((x, v) :: ρ) (stk ++ [v]) := by
   intro y w hy
   simp only [lookup] at hy
   by_cases hyx : y = x
   · simp [hyx] at hy; subst hy
-    exact Or.inl ⟨stk.length, by simp [lookupScopes, lookupScope, hyx], by simp⟩
+    exact Or.inl ⟨stk.length, v, by simp [lookupScopes, lookupScope, hyx], by simp,
+      by simp [RV, hyx, hx]⟩
   · simp [hyx] at hy
-    rcases (h.append [v]) y w hy with ⟨i, hi, hv⟩ | ⟨hn, hr⟩
-    · refine Or.inl ⟨i, ?_, hv⟩
+    rcases (ha.append [v]) y w hy with ⟨i, v', hi, hv, hr⟩ | ⟨hn, hr⟩
+    · refine Or.inl ⟨i, v', ?_, hv, hr⟩
       simp only [lookupScopes, lookupScope, hyx, if_false] at hi ⊢
       exact hi
     · refine Or.inr ⟨?_, hr⟩
@@ -464,7 +549,7 @@ theorem Agree.bind {fv upv S rest ρ stk x v} (h : Agree fv upv (S :: rest) ρ s
       exact hn
 
 /-- what `compileArgs` guarantees for an argument list -/
-def ArgsSpec (seIdx : Nat) (es : List Expr) : Prop :=
+def ArgsSpec (seIdx : Nat) (Φ : List (Sym × Nat)) (es : List Expr) : Prop :=
   ∀ (b : Nat) (st : FState),
       (compileArgs seIdx es b st).2.scopes = st.scopes ∧
       (compileArgs seIdx es b st).2.stackSize = st.stackSize + es.length ∧
@@ -473,12 +558,12 @@ def ArgsSpec (seIdx : Nat) (es : List Expr) : Prop :=
         (stk : List Val),
         SegAt fn.instrs b (compileArgs seIdx es b st).1 →
         Tables (compileArgs seIdx es b st).2 fn fv →
-        stk.length = st.stackSize → Agree fv upv st.scopes ρ stk → lookup ρ dummySym = none →
+        stk.length = st.stackSize → Agree h Φ fv upv st.scopes ρ stk → lookup ρ dummySym = none →
         (∀ vs, evalList fuel ρ es = .ok vs →
             Exec fn upv h b stk (b + (compileArgs seIdx es b st).1.length) (stk ++ vs)) ∧
         (evalList fuel ρ es = .error .arith → ExecErr fn upv h b stk .arith)
 
-theorem args_nil (seIdx : Nat) : ArgsSpec seIdx [] := by
+theorem args_nil (seIdx : Nat) (Φ : List (Sym × Nat)) : ArgsSpec seIdx Φ [] := by
   intro b st
   refine ⟨by simp [compileArgs], by simp [compileArgs], by simpa [compileArgs] using Ext.refl st, ?_⟩
   intro fn upv fv h fuel ρ stk _ _ _ _ _
@@ -487,8 +572,8 @@ theorem args_nil (seIdx : Nat) : ArgsSpec seIdx [] := by
     subst hv; simpa [compileArgs] using Exec.refl (fn := fn) (upv := upv) (h := h) b stk
   · cases fuel <;> simp [evalList] at he
 
-theorem args_cons {seIdx : Nat} {e : Expr} {es : List Expr} (he : WrapSpec seIdx e)
-    (hes : ArgsSpec seIdx es) : ArgsSpec seIdx (e :: es) := by
+theorem args_cons {seIdx : Nat} {Φ : List (Sym × Nat)} {e : Expr} {es : List Expr}
+    (he : WrapSpec seIdx Φ e) (hes : ArgsSpec seIdx Φ es) : ArgsSpec seIdx Φ (e :: es) := by
   intro b st
   obtain ⟨hs1, hz1, hx1, hd1⟩ := he false b st
   obtain ⟨hs2, hz2, hx2, hd2⟩ := hes (b + (compileE seIdx e false b st).1.length) (compileE seIdx e false b st).2
@@ -506,7 +591,7 @@ theorem args_cons {seIdx : Nat} {e : Expr} {es : List Expr} (he : WrapSpec seIdx
       simp at he; subst he
       exact herr1 h1
     | ok v =>
-      have ex1 := hok1 v h1
+      have ex1 := (hok1 v h1).exec
       obtain ⟨hok2, herr2⟩ := hd2 fn upv fv h n ρ (stk ++ [v]) hseg.right htab
         (by simp [hz1, hlen]) (by rw [hs1]; exact hag.append [v]) hdum
       cases h2 : evalList n ρ es with
@@ -550,6 +635,179 @@ theorem adjustSize_construct (i : Instr) (n m : Nat) (hi : i.adjust = 1 - (n : I
 
 /-! ### Patterns -/
 
+/-- the stack variables `pushVars` registers, innermost first -/
+def varsOf (n : Nat) : List Sym → List (Sym × Nat)
+  | [] => []
+  | x :: xs => varsOf (n + 1) xs ++ [(x, n)]
+
+theorem varsOf_length (n : Nat) (xs : List Sym) : (varsOf n xs).length = xs.length := by
+  induction xs generalizing n with
+  | nil => rfl
+  | cons x xs ih => simp [varsOf, ih]
+
+/-! ### Record patterns by `Split` -/
+
+/-- symbolic environment of `bindFields`: binder ↦ index of the field it is bound to, the most
+    recent binding first -/
+def symF : List PatField → List (Sym × Nat)
+  | [] => []
+  | f :: rest => symF rest ++ [(f.binder, f.index.getD 0)]
+
+theorem lookupScope_append (A B : List (Sym × Nat)) (y : Sym) :
+    lookupScope (A ++ B) y = (lookupScope A y).orElse (fun _ => lookupScope B y) := by
+  induction A with
+  | nil => simp [lookupScope]
+  | cons a A ih =>
+    obtain ⟨x, i⟩ := a
+    simp only [List.cons_append, lookupScope]
+    split
+    · simp
+    · exact ih
+
+/-- what `bindFields` binds, read off the symbolic environment -/
+theorem bindFields_lookup (fs : List Val) (ns : List String) :
+    ∀ (fields : List PatField) (ρ ρ' : Env), bindFields false fields fs ns ρ = some ρ' →
+      ∀ y, lookup ρ' y = (match lookupScope (symF fields) y with
+                         | some i => fs[i]?
+                         | none => lookup ρ y)
+  | [], ρ, ρ', h, y => by
+    simp only [bindFields, Option.some.injEq] at h
+    subst h; simp [symF, lookupScope]
+  | f :: rest, ρ, ρ', h, y => by
+    simp only [bindFields] at h
+    cases hfo : fieldOf false f fs ns with
+    | none => simp [hfo] at h
+    | some w =>
+      simp only [hfo] at h
+      have hidx : ∃ i, f.index = some i ∧ fs[i]? = some w := by
+        simp only [fieldOf, Bool.false_eq_true, if_false] at hfo
+        cases hi : f.index with
+        | none => simp [hi] at hfo
+        | some i => exact ⟨i, rfl, by simpa [hi] using hfo⟩
+      obtain ⟨i, hi, hw⟩ := hidx
+      have ih := bindFields_lookup fs ns rest _ ρ' h y
+      rw [ih]
+      simp only [symF, lookupScope_append, hi, Option.getD_some]
+      cases hl : lookupScope (symF rest) y with
+      | some j => simp
+      | none =>
+        simp only [Option.orElse_none, lookupScope, lookup]
+        by_cases hy : y = f.binder
+        · simp [hy, hw]
+        · simp [hy]
+
+theorem symF_mem : ∀ (fields : List PatField) (y : Sym) (i : Nat),
+    lookupScope (symF fields) y = some i → ∃ f ∈ fields, f.binder = y
+  | [], y, i, h => by simp [symF, lookupScope] at h
+  | f :: rest, y, i, h => by
+    simp only [symF, lookupScope_append] at h
+    cases hl : lookupScope (symF rest) y with
+    | some j =>
+      obtain ⟨g, hg, hb⟩ := symF_mem rest y j hl
+      exact ⟨g, by simp [hg], hb⟩
+    | none =>
+      simp only [hl, Option.orElse_none, lookupScope] at h
+      by_cases hy : y = f.binder
+      · exact ⟨f, by simp, hy.symm⟩
+      · simp [hy] at h
+
+theorem lookupScope_varsOf_shift : ∀ (xs : List Sym) (n : Nat) (y : Sym),
+    lookupScope (varsOf n xs) y = (lookupScope (varsOf 0 xs) y).map (· + n)
+  | [], n, y => by simp [varsOf, lookupScope]
+  | x :: xs, n, y => by
+    simp only [varsOf, lookupScope_append]
+    rw [lookupScope_varsOf_shift xs (n + 1) y, lookupScope_varsOf_shift xs (0 + 1) y]
+    cases lookupScope (varsOf 0 xs) y with
+    | some j => simp; omega
+    | none =>
+      simp only [Option.map_none, Option.orElse_none, lookupScope]
+      by_cases hy : y = x <;> simp [hy]
+
+theorem lookupScope_varsOf_none : ∀ (xs : List Sym) (n : Nat) (y : Sym), ¬ y ∈ xs →
+    lookupScope (varsOf n xs) y = none
+  | [], n, y, _ => by simp [varsOf, lookupScope]
+  | x :: xs, n, y, h => by
+    simp only [List.mem_cons, not_or] at h
+    simp [varsOf, lookupScope_append, lookupScope_varsOf_none xs (n + 1) y h.2, lookupScope, h.1]
+
+/-- the stack variables of the `Split` path: one per field of the type -/
+def splitNames (byType : List (Option Sym)) : List Sym := byType.map (·.getD dummySym)
+
+/-- the pattern's bindings and the variables registered per type field denote the same fields
+    (checked, not assumed: both descriptions come from the harness) -/
+def splitOk (nfields : Nat) (fields : List PatField) (byType : List (Option Sym)) : Bool :=
+  decide (byType.length = nfields) &&
+  fields.all (fun f =>
+    lookupScope (varsOf 0 (splitNames byType)) f.binder == lookupScope (symF fields) f.binder) &&
+  (splitNames byType).all (fun x => x == dummySym || (lookupScope (symF fields) x).isSome) &&
+  !(fields.map (·.binder)).contains dummySym
+
+theorem split_agree (h : Heap) (Φ : List (Sym × Nat)) (fv : List Sym) (upv : List Val)
+    (scopes : List (List (Sym × Nat)))
+    (nfields : Nat) (fields : List PatField) (byType : List (Option Sym))
+    (hok : splitOk nfields fields byType = true)
+    (hfr : ∀ f ∈ fields, lookupScope Φ f.binder = none)
+    (stk fs : List Val) (ns : List String) (ρ ρ' : Env)
+    (hlen : fs.length = nfields)
+    (hag : Agree h Φ fv upv scopes ρ stk) (hdum : lookup ρ dummySym = none)
+    (hb : bindFields false fields fs ns ρ = some ρ') :
+    Agree h Φ fv upv ((varsOf stk.length (splitNames byType) ++ []) :: scopes) ρ' (stk ++ fs) ∧
+    lookup ρ' dummySym = none := by
+  simp only [splitOk, Bool.and_eq_true, decide_eq_true_eq, List.all_eq_true, beq_iff_eq,
+    Bool.or_eq_true, Bool.not_eq_true'] at hok
+  obtain ⟨⟨⟨hbl, hfld⟩, hnm⟩, hnd⟩ := hok
+  have hL := bindFields_lookup fs ns fields ρ ρ' hb
+  constructor
+  · intro y v hy
+    rw [hL y] at hy
+    cases hs : lookupScope (symF fields) y with
+    | some i =>
+      simp only [hs] at hy
+      obtain ⟨f, hf, hfb⟩ := symF_mem fields y i hs
+      have h1 := hfld f hf
+      rw [hfb, hs] at h1
+      refine Or.inl ⟨i + stk.length, v, ?_, ?_, ?_⟩
+      · simp only [List.append_nil, lookupScopes]
+        rw [lookupScope_varsOf_shift, h1]
+        simp
+      · rw [Nat.add_comm, List.getElem?_append_right (Nat.le_add_right _ _)]
+        simpa using hy
+      · have := hfr f hf
+        rw [hfb] at this
+        simp [RV, this]
+    | none =>
+      simp only [hs] at hy
+      have hyd : ¬ y = dummySym := by
+        intro e; subst e; rw [hdum] at hy; cases hy
+      have hnot : ¬ y ∈ splitNames byType := by
+        intro hin
+        rcases hnm y hin with h | h
+        · exact hyd h
+        · rw [hs] at h; simp at h
+      have hP : lookupScope (varsOf stk.length (splitNames byType)) y = none :=
+        lookupScope_varsOf_none _ _ _ hnot
+      rcases (hag.append fs) y v hy with ⟨i, v', hi, hv, hr⟩ | ⟨hn, hr⟩
+      · exact Or.inl ⟨i, v', by simp [lookupScopes, hP, hi], hv, hr⟩
+      · exact Or.inr ⟨by simp [lookupScopes, hP, hn], hr⟩
+  · rw [hL dummySym]
+    cases hs : lookupScope (symF fields) dummySym with
+    | some i =>
+      obtain ⟨f, hf, hfb⟩ := symF_mem fields dummySym i hs
+      have : (fields.map (·.binder)).contains dummySym = true := by
+        simp only [List.contains_eq_mem, List.mem_map, decide_eq_true_eq]
+        exact ⟨f, hf, hfb⟩
+      rw [this] at hnd; cases hnd
+    | none => simpa using hdum
+
+/-- compile_let_pattern :1057: the record pattern is compiled to `GetOffset`s (few fields of a
+    large record, or no field at all) rather than to a `Split` -/
+def goCond (nfields : Nat) (fields : List PatField) : Prop :=
+  fields.length = 0 ∨ (nfields > 4 ∧ nfields / fields.length ≥ 4)
+
+instance (nfields : Nat) (fields : List PatField) : Decidable (goCond nfields fields) := by
+  unfold goCond; exact inferInstance
+
+
 /-- the alternatives' patterns covered by F1 -/
 def patOk : Pat → Bool
   | .ctor (some _) args => !args.contains dummySym
@@ -557,10 +815,12 @@ def patOk : Pat → Bool
   | .lit (.int _) => true
   | .lit (.char _) => true
   | .lit (.byte _) => true
-  /- record patterns on closed rows that compile to `GetOffset`s (compile_let_pattern :1057) -/
-  | .record nfields poly fields _ =>
-    !poly && decide (fields.length = 0 ∨ (nfields > 4 ∧ nfields / fields.length ≥ 4)) &&
-      fields.all (fun f => f.index.isSome) && !(fields.map (·.binder)).contains dummySym
+  /- record / tuple patterns on closed rows: both paths of compile_let_pattern :1057 -/
+  | .record nfields poly fields byType =>
+    !poly &&
+      (if goCond nfields fields then
+        fields.all (fun f => f.index.isSome) && !(fields.map (·.binder)).contains dummySym
+       else splitOk nfields fields byType)
   | _ => false
 
 def isRec : Pat → Bool
@@ -759,16 +1019,6 @@ theorem test_exec (seIdx : Nat) (p : Pat) (hp : patOk p = true) (hnr : isRec p =
 
 /-! ### Pattern variables -/
 
-/-- the stack variables `pushVars` registers, innermost first -/
-def varsOf (n : Nat) : List Sym → List (Sym × Nat)
-  | [] => []
-  | x :: xs => varsOf (n + 1) xs ++ [(x, n)]
-
-theorem varsOf_length (n : Nat) (xs : List Sym) : (varsOf n xs).length = xs.length := by
-  induction xs generalizing n with
-  | nil => rfl
-  | cons x xs ih => simp [varsOf, ih]
-
 theorem pushVars_cons (x : Sym) (xs : List Sym) (st : FState) :
     pushVars (x :: xs) st = pushVars xs (st.pushStackVar x) := rfl
 
@@ -786,17 +1036,19 @@ theorem pushVars_scopes : ∀ (args : List Sym) (st : FState) (S : List (Sym × 
     rw [pushVars_cons]
     refine ⟨by rw [ih1, h2]; simp [varsOf], by rw [ih2, h2]; simp; omega⟩
 
-theorem varsOf_agree (fv : List Sym) (upv : List Val) : ∀ (args : List Sym) (fs : List Val)
+theorem varsOf_agree (h : Heap) (Φ : List (Sym × Nat)) (fv : List Sym) (upv : List Val) :
+    ∀ (args : List Sym) (fs : List Val)
     (stk : List Val) (ρ : Env) (S : List (Sym × Nat)) (rest : List (List (Sym × Nat))),
-    args.length = fs.length → Agree fv upv (S :: rest) ρ stk →
-    Agree fv upv ((varsOf stk.length args ++ S) :: rest) (bindAll args fs ρ) (stk ++ fs)
-  | [], [], stk, ρ, S, rest, _, h => by simpa [varsOf, bindAll] using h
-  | [], _ :: _, _, _, _, _, hl, _ => by simp at hl
-  | _ :: _, [], _, _, _, _, hl, _ => by simp at hl
-  | x :: xs, v :: vs, stk, ρ, S, rest, hl, h => by
-    have hb := h.bind (x := x) (v := v)
-    have := varsOf_agree fv upv xs vs (stk ++ [v]) ((x, v) :: ρ) ((x, stk.length) :: S) rest
-      (by simpa using hl) hb
+    args.length = fs.length → (∀ a ∈ args, lookupScope Φ a = none) →
+    Agree h Φ fv upv (S :: rest) ρ stk →
+    Agree h Φ fv upv ((varsOf stk.length args ++ S) :: rest) (bindAll args fs ρ) (stk ++ fs)
+  | [], [], stk, ρ, S, rest, _, _, ha => by simpa [varsOf, bindAll] using ha
+  | [], _ :: _, _, _, _, _, hl, _, _ => by simp at hl
+  | _ :: _, [], _, _, _, _, hl, _, _ => by simp at hl
+  | x :: xs, v :: vs, stk, ρ, S, rest, hl, hfr, ha => by
+    have hb := ha.bind (x := x) (v := v) (hfr x (by simp))
+    have := varsOf_agree h Φ fv upv xs vs (stk ++ [v]) ((x, v) :: ρ) ((x, stk.length) :: S) rest
+      (by simpa using hl) (fun a ha' => hfr a (by simp [ha'])) hb
     simpa [varsOf, bindAll] using this
 
 theorem bindAll_dummy : ∀ (args : List Sym) (fs : List Val) (ρ : Env),
@@ -849,24 +1101,25 @@ theorem step_getOffset (fn : Fn) (upv : List Val) (pc i t : Nat) (s fs : List Va
   have h2 : popN (s ++ [.data t fs ns]) 1 = s := popN_append s [_] 1 rfl
   simp [stepInstr, asData, h2, hw]
 
-theorem fieldLoads_exec (fn : Fn) (upv : List Val) (fv : List Sym) (h : Heap) (r t : Nat)
+theorem fieldLoads_exec (fn : Fn) (upv : List Val) (fv : List Sym) (h : Heap)
+    (Φ : List (Sym × Nat)) (r t : Nat)
     (fs : List Val) (ns : List String) (rest : List (List (Sym × Nat))) :
     ∀ (fields : List PatField) (st : FState) (stk : List Val) (ρ ρ' : Env) (S : List (Sym × Nat))
-      (B : Nat),
-      stk[r]? = some (.data t fs ns) → Agree fv upv (S :: rest) ρ stk →
+      (B : Nat), (∀ f ∈ fields, lookupScope Φ f.binder = none) →
+      stk[r]? = some (.data t fs ns) → Agree h Φ fv upv (S :: rest) ρ stk →
       lookup ρ dummySym = none → (fields.map (·.binder)).contains dummySym = false →
       bindFields false fields fs ns ρ = some ρ' →
       SegAt fn.instrs B (fieldLoads false r fields st).1 →
       ∃ X : List Val, X.length = fields.length ∧
         Exec fn upv h B stk (B + (fieldLoads false r fields st).1.length) (stk ++ X) ∧
-        Agree fv upv ((varsOf stk.length (fields.map (·.binder)) ++ S) :: rest) ρ' (stk ++ X) ∧
+        Agree h Φ fv upv ((varsOf stk.length (fields.map (·.binder)) ++ S) :: rest) ρ' (stk ++ X) ∧
         lookup ρ' dummySym = none
-  | [], st, stk, ρ, ρ', S, B, _, hag, hd, _, hb, _ => by
+  | [], st, stk, ρ, ρ', S, B, _, _, hag, hd, _, hb, _ => by
     simp only [bindFields, Option.some.injEq] at hb
     subst hb
     exact ⟨[], rfl, by simpa [fieldLoads] using Exec.refl (fn := fn) (upv := upv) (h := h) B stk,
       by simpa [varsOf] using hag, hd⟩
-  | f :: fields, st, stk, ρ, ρ', S, B, hr, hag, hd, hnd, hb, hseg => by
+  | f :: fields, st, stk, ρ, ρ', S, B, hfr, hr, hag, hd, hnd, hb, hseg => by
     simp only [List.map_cons, List.contains_cons, Bool.or_eq_false_iff, beq_eq_false_iff_ne,
       ne_eq] at hnd
     simp only [bindFields] at hb
@@ -895,13 +1148,31 @@ theorem fieldLoads_exec (fn : Fn) (upv : List Val) (fv : List Sym) (h : Heap) (r
       have hd' : lookup ((f.binder, w) :: ρ) dummySym = none := by
         have : ¬ dummySym = f.binder := hnd.1
         simp [lookup, this, hd]
-      obtain ⟨X, hX, ex, hag', hdum'⟩ := fieldLoads_exec fn upv fv h r t fs ns rest fields
+      obtain ⟨X, hX, ex, hag', hdum'⟩ := fieldLoads_exec fn upv fv h Φ r t fs ns rest fields
         (((st.emit (.push r)).emit (.getOffset (f.index.getD 0))).newStackVar f.binder)
-        (stk ++ [w]) ((f.binder, w) :: ρ) ρ' ((f.binder, stk.length) :: S) (B + 1 + 1) hr'
-        hag.bind hd' hnd.2 hb hseg.tail.tail
+        (stk ++ [w]) ((f.binder, w) :: ρ) ρ' ((f.binder, stk.length) :: S) (B + 1 + 1)
+        (fun g hg => hfr g (by simp [hg])) hr'
+        (hag.bind (hfr f (by simp))) hd' hnd.2 hb hseg.tail.tail
       refine ⟨w :: X, by simp [hX], ?_, ?_, hdum'⟩
       · exact ((e1.trans e2).trans ex).to (by simp only [List.length_cons]; omega) (by simp)
       · simpa [varsOf] using hag'
+
+/-- the variables a pattern binds -/
+def patBinders : Pat → List Sym
+  | .ctor _ args => args
+  | .ident x => [x]
+  | .lit _ => []
+  | .record _ _ fields _ => fields.map (·.binder)
+
+/-- no pattern variable shadows a function variable -/
+def patFresh (Φ : List (Sym × Nat)) (p : Pat) : Bool :=
+  (patBinders p).all (fun x => (lookupScope Φ x).isNone)
+
+theorem patFresh_mem {Φ : List (Sym × Nat)} {p : Pat} (h : patFresh Φ p = true) :
+    ∀ x ∈ patBinders p, lookupScope Φ x = none := by
+  intro x hx
+  have := List.all_eq_true.mp h x hx
+  simpa using this
 
 /-- the variables the prologue of an alternative registers (`n` = number of slots below the
     scrutinee) -/
@@ -909,13 +1180,47 @@ def patVars (n : Nat) : Pat → List (Sym × Nat)
   | .ctor _ args => varsOf n args
   | .ident x => [(x, n)]
   | .lit _ => [(dummySym, n)]
-  | .record _ _ fields _ => varsOf (n + 1) (fields.map (·.binder)) ++ [(dummySym, n)]
+  | .record nfields _ fields byType =>
+    if goCond nfields fields then varsOf (n + 1) (fields.map (·.binder)) ++ [(dummySym, n)]
+    else varsOf n (splitNames byType)
+
+theorem matchPat_record {n : Nat} {fields : List PatField} {bt : List (Option Sym)} {t : Nat}
+    {fs : List Val} {ns : List String} {ρ ρ' : Env}
+    (hm : matchPat (.record n false fields bt) (.data t fs ns) ρ = some (some ρ')) :
+    fs.length = n ∧ bindFields false fields fs ns ρ = some ρ' := by
+  simp only [matchPat, true_and] at hm
+  by_cases hl : fs.length = n
+  · simp only [hl, ne_eq, not_true_eq_false, if_false] at hm
+    refine ⟨hl, ?_⟩
+    cases hbf : bindFields false fields fs ns ρ with
+    | none => simp [hbf] at hm
+    | some r => simp [hbf] at hm; rw [hm]
+  · simp [hl] at hm
 
 theorem patOk_record {nfields poly fields byType} (hp : patOk (.record nfields poly fields byType) = true) :
-    poly = false ∧ (fields.length = 0 ∨ (nfields > 4 ∧ nfields / fields.length ≥ 4)) ∧
-    (fields.map (·.binder)).contains dummySym = false := by
-  simp only [patOk, Bool.and_eq_true, Bool.not_eq_true', decide_eq_true_eq] at hp
-  exact ⟨hp.1.1.1, hp.1.1.2, hp.2⟩
+    poly = false ∧
+    (goCond nfields fields → (fields.map (·.binder)).contains dummySym = false) ∧
+    (¬ goCond nfields fields → splitOk nfields fields byType = true) := by
+  simp only [patOk, Bool.and_eq_true, Bool.not_eq_true'] at hp
+  refine ⟨hp.1, fun hc => ?_, fun hc => ?_⟩
+  · have := hp.2
+    simp only [hc, if_true, Bool.and_eq_true, Bool.not_eq_true'] at this
+    exact this.2
+  · have := hp.2
+    simpa only [hc, if_false] using this
+
+theorem prologue_split (nfields : Nat) (fields : List PatField) (byType : List (Option Sym))
+    (st : FState) (hc : ¬ goCond nfields fields) :
+    prologue (.record nfields false fields byType) st =
+      ([.split], pushVars (splitNames byType) (st.emit .split)) := by
+  simp only [prologue]
+  rw [if_neg (by
+    intro h
+    rcases h with h | h | h
+    · exact hc (Or.inl h)
+    · exact hc (Or.inr h)
+    · cases h)]
+  rfl
 
 theorem prologue_record (nfields : Nat) (fields : List PatField) (byType : List (Option Sym))
     (st : FState) (hc : fields.length = 0 ∨ (nfields > 4 ∧ nfields / fields.length ≥ 4)) :
@@ -933,17 +1238,26 @@ theorem prologue_static (p : Pat) (hp : patOk p = true) (st : FState) (n : Nat)
     (prologue p st.enterScope).2.stackSize = n + (patVars n p).length := by
   cases p with
   | record nfields poly fields byType =>
-    obtain ⟨hpoly, hcond, _⟩ := patOk_record hp
+    obtain ⟨hpoly, _, _⟩ := patOk_record hp
     subst hpoly
-    have h1 : (st.enterScope.newStackVar dummySym).scopes = [(dummySym, n)] :: st.scopes := by
-      simp [FState.newStackVar, FState.enterScope, hz]
-    have h2 : (st.enterScope.newStackVar dummySym).stackSize = n + 1 := by
-      simp [FState.newStackVar, FState.enterScope, hz]
-    obtain ⟨a, b, _, _⟩ := fieldLoads_static ((st.enterScope.newStackVar dummySym).stackSize - 1)
-      fields _ _ st.scopes h1
-    rw [prologue_record _ _ _ _ hcond, a, b, h2]
-    simp [patVars, varsOf_length]
-    omega
+    by_cases hcond : goCond nfields fields
+    · have h1 : (st.enterScope.newStackVar dummySym).scopes = [(dummySym, n)] :: st.scopes := by
+        simp [FState.newStackVar, FState.enterScope, hz]
+      have h2 : (st.enterScope.newStackVar dummySym).stackSize = n + 1 := by
+        simp [FState.newStackVar, FState.enterScope, hz]
+      obtain ⟨a, b, _, _⟩ := fieldLoads_static ((st.enterScope.newStackVar dummySym).stackSize - 1)
+        fields _ _ st.scopes h1
+      rw [prologue_record _ _ _ _ hcond, a, b, h2]
+      simp [patVars, varsOf_length, hcond]
+      omega
+    · have h1 : (st.enterScope.emit .split).scopes = [] :: st.scopes := rfl
+      have h2 : (st.enterScope.emit .split).stackSize = n := by
+        simp [FState.emit, FState.enterScope, adjustSize, Instr.adjust, hz]
+      obtain ⟨a, b⟩ := pushVars_scopes (splitNames byType) (st.enterScope.emit .split) [] st.scopes h1
+      rw [prologue_split _ _ _ _ hcond]
+      simp only [patVars, hcond, if_false]
+      rw [a, b, h2]
+      simp [varsOf_length]
   | ident x => simp [prologue, FState.newStackVar, FState.enterScope, patVars, hz]
   | lit l => simp [prologue, FState.newStackVar, FState.enterScope, patVars, hz]
   | ctor tag args =>
@@ -969,15 +1283,18 @@ theorem prologue_same (p : Pat) (hp : patOk p = true) (st : FState) :
     SameTabs st (prologue p st.enterScope).2 := by
   cases p with
   | record nfields poly fields byType =>
-    obtain ⟨hpoly, hcond, _⟩ := patOk_record hp
+    obtain ⟨hpoly, _, _⟩ := patOk_record hp
     subst hpoly
-    have h1 : (st.enterScope.newStackVar dummySym).scopes =
-        [(dummySym, st.stackSize - 1)] :: st.scopes := by
-      simp [FState.newStackVar, FState.enterScope]
-    obtain ⟨_, _, c, _⟩ := fieldLoads_static ((st.enterScope.newStackVar dummySym).stackSize - 1)
-      fields _ _ st.scopes h1
-    rw [prologue_record _ _ _ _ hcond]
-    exact ((same_enter st).trans (same_newStackVar _ _)).trans c
+    by_cases hcond : goCond nfields fields
+    · have h1 : (st.enterScope.newStackVar dummySym).scopes =
+          [(dummySym, st.stackSize - 1)] :: st.scopes := by
+        simp [FState.newStackVar, FState.enterScope]
+      obtain ⟨_, _, c, _⟩ := fieldLoads_static ((st.enterScope.newStackVar dummySym).stackSize - 1)
+        fields _ _ st.scopes h1
+      rw [prologue_record _ _ _ _ hcond]
+      exact ((same_enter st).trans (same_newStackVar _ _)).trans c
+    · rw [prologue_split _ _ _ _ hcond]
+      exact ((same_enter st).trans (same_emit _ _)).trans (same_pushVars _ _)
   | ident x => exact (same_enter st).trans (same_newStackVar _ x)
   | lit l => exact (same_enter st).trans (same_newStackVar _ _)
   | ctor tag args =>
@@ -989,14 +1306,14 @@ theorem step_split (fn : Fn) (upv : List Val) (pc t : Nat) (s fs : List Val) (ns
   have h2 : popN (s ++ [.data t fs ns]) 1 = s := popN_append s [_] 1 rfl
   simp [stepInstr, asData, h2]
 
-theorem Agree.dummy {fv upv S rest ρ stk n} (h : Agree fv upv (S :: rest) ρ stk)
+theorem Agree.dummy {h Φ fv upv S rest ρ stk n} (ha : Agree h Φ fv upv (S :: rest) ρ stk)
     (hd : lookup ρ dummySym = none) :
-    Agree fv upv (((dummySym, n) :: S) :: rest) ρ stk := by
+    Agree h Φ fv upv (((dummySym, n) :: S) :: rest) ρ stk := by
   intro y w hy
   have hyd : ¬ y = dummySym := by
     intro e; subst e; rw [hd] at hy; cases hy
-  rcases h y w hy with ⟨i, hi, hv⟩ | ⟨hn, hr⟩
-  · refine Or.inl ⟨i, ?_, hv⟩
+  rcases ha y w hy with ⟨i, v', hi, hv, hr⟩ | ⟨hn, hr⟩
+  · refine Or.inl ⟨i, v', ?_, hv, hr⟩
     simp only [lookupScopes, lookupScope, hyd, if_false] at hi ⊢
     exact hi
   · refine Or.inr ⟨?_, hr⟩
@@ -1005,47 +1322,59 @@ theorem Agree.dummy {fv upv S rest ρ stk n} (h : Agree fv upv (S :: rest) ρ st
 
 /-- The prologue of a selected alternative: it replaces the scrutinee by the slots of the
     pattern's variables, which then agree with the extended environment. -/
-theorem prologue_exec (p : Pat) (hp : patOk p = true) (st : FState) (fn : Fn) (upv : List Val)
+theorem prologue_exec (p : Pat) (hp : patOk p = true) (Φ : List (Sym × Nat))
+    (hfr : patFresh Φ p = true) (st : FState) (fn : Fn) (upv : List Val)
     (fv : List Sym) (h : Heap) (stk : List Val) (sv : Val) (ρ ρ' : Env) (B : Nat)
     (hz : st.stackSize = stk.length + 1)
-    (hag : Agree fv upv st.scopes ρ stk) (hdum : lookup ρ dummySym = none)
+    (hag : Agree h Φ fv upv st.scopes ρ stk) (hdum : lookup ρ dummySym = none)
     (hm : matchPat p sv ρ = some (some ρ'))
     (hseg : SegAt fn.instrs B (prologue p st.enterScope).1) :
     ∃ X : List Val, X.length = (patVars stk.length p).length ∧
       Exec fn upv h B (stk ++ [sv]) (B + (prologue p st.enterScope).1.length) (stk ++ X) ∧
-      Agree fv upv (patVars stk.length p :: st.scopes) ρ' (stk ++ X) ∧
+      Agree h Φ fv upv (patVars stk.length p :: st.scopes) ρ' (stk ++ X) ∧
       lookup ρ' dummySym = none := by
   cases p with
   | record nfields poly fields byType =>
-    obtain ⟨hpoly, hcond, hnd⟩ := patOk_record hp
+    obtain ⟨hpoly, hgo, hsp⟩ := patOk_record hp
     subst hpoly
     cases sv with
     | data t fs ns =>
-      have hb : bindFields false fields fs ns ρ = some ρ' := by
-        simp only [matchPat] at hm
-        cases hbf : bindFields false fields fs ns ρ with
-        | none => simp [hbf] at hm
-        | some r => simp [hbf] at hm; rw [hm]
-      have h2 : (st.enterScope.newStackVar dummySym).stackSize - 1 = stk.length := by
-        simp [FState.newStackVar, FState.enterScope, hz]
-      rw [prologue_record _ _ _ _ hcond, h2] at hseg ⊢
-      have hbase : Agree fv upv ([(dummySym, stk.length)] :: st.scopes) ρ (stk ++ [.data t fs ns]) :=
-        ((hag.enter).dummy hdum).append _
-      obtain ⟨X, hX, ex, hag', hdum'⟩ := fieldLoads_exec fn upv fv h stk.length t fs ns st.scopes
-        fields (st.enterScope.newStackVar dummySym) (stk ++ [.data t fs ns]) ρ ρ'
-        [(dummySym, stk.length)] B (by simp) hbase hdum hnd hb hseg
-      refine ⟨.data t fs ns :: X, by simp [patVars, varsOf_length, hX], ?_, ?_, hdum'⟩
-      · exact ex.to rfl (by simp)
-      · have : (stk ++ [Val.data t fs ns]).length = stk.length + 1 := by simp
-        rw [this] at hag'
-        simpa [patVars] using hag'
+      obtain ⟨hfl, hb⟩ := matchPat_record hm
+      by_cases hcond : goCond nfields fields
+      · have hnd := hgo hcond
+        have h2 : (st.enterScope.newStackVar dummySym).stackSize - 1 = stk.length := by
+          simp [FState.newStackVar, FState.enterScope, hz]
+        rw [prologue_record _ _ _ _ hcond, h2] at hseg ⊢
+        have hbase : Agree h Φ fv upv ([(dummySym, stk.length)] :: st.scopes) ρ (stk ++ [.data t fs ns]) :=
+          ((hag.enter).dummy hdum).append _
+        obtain ⟨X, hX, ex, hag', hdum'⟩ := fieldLoads_exec fn upv fv h Φ stk.length t fs ns st.scopes
+          fields (st.enterScope.newStackVar dummySym) (stk ++ [.data t fs ns]) ρ ρ'
+          [(dummySym, stk.length)] B
+          (fun f hf => patFresh_mem hfr f.binder (by simp [patBinders]; exact ⟨f, hf, rfl⟩))
+          (by simp) hbase hdum hnd hb hseg
+        refine ⟨.data t fs ns :: X, by simp [patVars, varsOf_length, hX, hcond], ?_, ?_, hdum'⟩
+        · exact ex.to rfl (by simp)
+        · have : (stk ++ [Val.data t fs ns]).length = stk.length + 1 := by simp
+          rw [this] at hag'
+          simpa [patVars, hcond] using hag'
+      · have hok := hsp hcond
+        have hbl : byType.length = nfields := by
+          simp only [splitOk, Bool.and_eq_true, decide_eq_true_eq] at hok
+          exact hok.1.1.1
+        rw [prologue_split _ _ _ _ hcond] at hseg ⊢
+        obtain ⟨hag', hdum'⟩ := split_agree h Φ fv upv st.scopes nfields fields byType hok
+          (fun f hf => patFresh_mem hfr f.binder (by simp [patBinders]; exact ⟨f, hf, rfl⟩))
+          stk fs ns ρ ρ' hfl hag hdum hb
+        refine ⟨fs, by simp [patVars, hcond, varsOf_length, splitNames, hfl, hbl], ?_, ?_, hdum'⟩
+        · exact Exec.step hseg.head (step_split fn upv B t stk fs ns h)
+        · simpa [patVars, hcond] using hag'
     | _ => simp [matchPat] at hm
   | ident x =>
     simp only [patOk, decide_eq_true_eq] at hp
     simp only [matchPat, Option.some.injEq] at hm
     subst hm
     refine ⟨[sv], rfl, by simpa [prologue] using Exec.refl (fn := fn) (upv := upv) (h := h) B (stk ++ [sv]), ?_, ?_⟩
-    · have := (hag.enter).bind (x := x) (v := sv)
+    · have := (hag.enter).bind (x := x) (v := sv) (patFresh_mem hfr x (by simp [patBinders]))
       simpa [patVars] using this
     · have : ¬ dummySym = x := fun e => hp e.symm
       simp [lookup, this, hdum]
@@ -1075,7 +1404,8 @@ theorem prologue_exec (p : Pat) (hp : patOk p = true) (st : FState) (fn : Fn) (u
             simp only [prologue] at hseg ⊢
             refine ⟨fs, by simp [patVars, varsOf_length, hl], ?_, ?_, bindAll_dummy args fs ρ hp hdum⟩
             · exact Exec.step hseg.head (step_split fn upv B t stk fs ns h)
-            · have := varsOf_agree fv upv args fs stk ρ [] st.scopes hl hag.enter
+            · have := varsOf_agree h Φ fv upv args fs stk ρ [] st.scopes hl
+                (fun a ha => patFresh_mem hfr a (by simpa [patBinders] using ha)) hag.enter
               simpa [patVars] using this
           · simp [hl] at hm
         · simp [htt] at hm
@@ -1110,16 +1440,16 @@ theorem compileAlts_cons (seIdx p e alts tail b st) :
 
 /-- every alternative's code, entered with the scrutinee on top of `stk`, ends at `endPc` with
     the alternative's value in place of the scrutinee -/
-def AltsDyn (fn : Fn) (upv : List Val) (h : Heap) (ρ : Env) (stk : List Val) (sv : Val)
-    (endPc : Nat) : List (Pat × Expr) → List (List Instr) → Nat → Prop
+def AltsDyn (fn : Fn) (upv : List Val) (h : Heap) (tail : Bool) (ρ : Env) (stk : List Val)
+    (sv : Val) (endPc : Nat) : List (Pat × Expr) → List (List Instr) → Nat → Prop
   | (p, e) :: alts, c :: cs, B =>
     (∀ (fuel : Nat) (ρ' : Env), matchPat p sv ρ = some (some ρ') →
-        (∀ v, evalCore fuel ρ' e = .ok v → Exec fn upv h B (stk ++ [sv]) endPc (stk ++ [v])) ∧
+        (∀ v, evalCore fuel ρ' e = .ok v → Done fn upv h tail B (stk ++ [sv]) endPc stk v) ∧
         (evalCore fuel ρ' e = .error .arith → ExecErr fn upv h B (stk ++ [sv]) .arith)) ∧
-      AltsDyn fn upv h ρ stk sv endPc alts cs (B + c.length + 1)
+      AltsDyn fn upv h tail ρ stk sv endPc alts cs (B + c.length + 1)
   | _, _, _ => True
 
-def AltsSpec (seIdx : Nat) (alts : List (Pat × Expr)) : Prop :=
+def AltsSpec (seIdx : Nat) (Φ : List (Sym × Nat)) (alts : List (Pat × Expr)) : Prop :=
   ∀ (tail : Bool) (b : Nat) (st : FState) (n : Nat), st.stackSize = n + 1 →
     (compileAlts seIdx alts tail b st).2.scopes = st.scopes ∧
     (compileAlts seIdx alts tail b st).2.stackSize = n + 1 ∧
@@ -1127,21 +1457,23 @@ def AltsSpec (seIdx : Nat) (alts : List (Pat × Expr)) : Prop :=
     Ext st (compileAlts seIdx alts tail b st).2 ∧
     ∀ (fn : Fn) (upv : List Val) (fv : List Sym) (h : Heap) (ρ : Env) (stk : List Val) (sv : Val)
       (endPc : Nat),
-      stk.length = n → Agree fv upv st.scopes ρ stk → lookup ρ dummySym = none →
+      stk.length = n → Agree h Φ fv upv st.scopes ρ stk → lookup ρ dummySym = none →
       Tables (compileAlts seIdx alts tail b st).2 fn fv →
       SegAt fn.instrs b (joinBodies endPc (compileAlts seIdx alts tail b st).1) →
-      AltsDyn fn upv h ρ stk sv endPc alts (compileAlts seIdx alts tail b st).1 b
+      AltsDyn fn upv h tail ρ stk sv endPc alts (compileAlts seIdx alts tail b st).1 b
 
-theorem alts_nil (seIdx : Nat) : AltsSpec seIdx [] := by
+theorem alts_nil (seIdx : Nat) (Φ : List (Sym × Nat)) : AltsSpec seIdx Φ [] := by
   intro tail b st n hz
   refine ⟨by simp [compileAlts], by simp [compileAlts, hz], by simp [compileAlts],
     by simpa [compileAlts] using Ext.refl st, ?_⟩
   intros
   simp [compileAlts, AltsDyn]
 
-theorem alts_cons {seIdx : Nat} {p : Pat} {e : Expr} {alts : List (Pat × Expr)}
-    (hp : patOk p = true) (he : WrapSpec seIdx e) (hes : AltsSpec seIdx alts) :
-    AltsSpec seIdx ((p, e) :: alts) := by
+theorem alts_cons {seIdx : Nat} {Φ : List (Sym × Nat)} {p : Pat} {e : Expr}
+    {alts : List (Pat × Expr)}
+    (hp : patOk p = true) (hfr : patFresh Φ p = true) (he : WrapSpec seIdx Φ e)
+    (hes : AltsSpec seIdx Φ alts) :
+    AltsSpec seIdx Φ ((p, e) :: alts) := by
   intro tail b st n hz
   obtain ⟨hps, hpz⟩ := prologue_static p hp st n hz
   have hpsame := prologue_same p hp st
@@ -1175,14 +1507,14 @@ theorem alts_cons {seIdx : Nat} {p : Pat} {e : Expr} {alts : List (Pat × Expr)}
   refine ⟨?_, ?_⟩
   · intro fuel ρ' hm
     have hsegc := hseg.left.left
-    obtain ⟨X, hX, ex1, hag', hdum'⟩ := prologue_exec p hp st fn upv fv h stk sv ρ ρ' b
+    obtain ⟨X, hX, ex1, hag', hdum'⟩ := prologue_exec p hp Φ hfr st fn upv fv h stk sv ρ ρ' b
       (by rw [hz, hlen]) hag hdum hm hsegc.left.left
     rw [hlen] at hX hag'
     obtain ⟨hok, herr⟩ := hd2 fn upv fv h fuel ρ' (stk ++ X) hsegc.left.right
       (htab.of_ext (hf2t.ext.trans hax))
       (by simp [hpz, hX, hlen]) (by rw [hps]; exact hag') hdum'
     refine ⟨fun v hv => ?_, fun hv => ex1.thenErr (herr hv)⟩
-    have ex2 := ex1.trans (hok v hv)
+    have ex2 := (hok v hv).prepend ex1
     have hjmp := hseg.left.right.head
     have hsl := hsegc.right
     rw [hf1] at hsl hjmp
@@ -1191,13 +1523,13 @@ theorem alts_cons {seIdx : Nat} {p : Pat} {e : Expr} {alts : List (Pat × Expr)}
       subst hXn
       simp only [slideCode, h0, if_true, List.append_nil] at hjmp
       have ex3 := Exec.step (stk := stk ++ [v]) (upv := upv) (h := h) hjmp (step_jump fn upv _ _ _ h)
-      exact ((ex2.to (by simp only [List.length_append]; omega) (by simp)).trans ex3)
+      exact ((ex2.to (by simp only [List.length_append]; omega) (by simp)).andThen ex3)
     · simp only [slideCode, h0, if_false] at hsl hjmp
       have ex3 := Exec.step (upv := upv) (h := h) hsl.head
         (step_slide fn upv _ stk X v h (patVars n p).length hX)
       have ex4 := Exec.step (stk := stk ++ [v]) (upv := upv) (h := h) hjmp (step_jump fn upv _ _ _ h)
-      exact (((ex2.to (by simp only [List.length_append]; omega) rfl).trans ex3).to
-        (by simp only [List.length_append, List.length_cons, List.length_nil]; omega) rfl).trans ex4
+      exact (((ex2.to (by simp only [List.length_append]; omega) rfl).andThen ex3).to
+        (by simp only [List.length_append, List.length_cons, List.length_nil]; omega) rfl).andThen ex4
   · have := had fn upv fv h ρ stk sv endPc hlen (by rw [hf2s]; exact hag) hdum htab
       (hseg.right.to (by simp only [List.length_append, List.length_cons, List.length_nil]; omega))
     exact this
@@ -1239,14 +1571,14 @@ theorem endOf_eq (e : Nat) : ∀ (cs : List (List Instr)) (B : Nat),
       List.length_nil]
     omega
 
-theorem dispatch (seIdx : Nat) (fn : Fn) (upv : List Val) (h : Heap) (ρ : Env) (stk : List Val)
-    (sv : Val) (endPc : Nat) :
+theorem dispatch (seIdx : Nat) (fn : Fn) (upv : List Val) (h : Heap) (tail : Bool) (ρ : Env)
+    (stk : List Val) (sv : Val) (endPc : Nat) :
     ∀ (alts : List (Pat × Expr)) (cs : List (List Instr)) (T B fuel : Nat) (st : FState),
       (∀ a ∈ alts, patOk a.1 = true) → (∀ a ∈ alts, isRec a.1 = false) →
       st.stackSize = stk.length + 1 → cs.length = alts.length →
       SegAt fn.instrs T (patchTests (testsOf seIdx alts st).1 (startsOf B cs)) →
-      AltsDyn fn upv h ρ stk sv endPc alts cs B →
-      (∀ v, evalAlts fuel ρ sv alts = .ok v → Exec fn upv h T (stk ++ [sv]) endPc (stk ++ [v])) ∧
+      AltsDyn fn upv h tail ρ stk sv endPc alts cs B →
+      (∀ v, evalAlts fuel ρ sv alts = .ok v → Done fn upv h tail T (stk ++ [sv]) endPc stk v) ∧
       (evalAlts fuel ρ sv alts = .error .arith → ExecErr fn upv h T (stk ++ [sv]) .arith)
   | [], cs, T, B, fuel, st, _, _, _, _, _, _ => by
     cases fuel <;> simp [evalAlts]
@@ -1268,14 +1600,14 @@ theorem dispatch (seIdx : Nat) (fn : Fn) (upv : List Val) (h : Heap) (ρ : Env) 
         cases o with
         | some ρ' =>
           obtain ⟨h1, h2⟩ := hhead n ρ' hm
-          exact ⟨fun v hv => (hsel ρ' hm).trans (h1 v hv), fun hv => (hsel ρ' hm).thenErr (h2 hv)⟩
+          exact ⟨fun v hv => (h1 v hv).prepend (hsel ρ' hm), fun hv => (hsel ρ' hm).thenErr (h2 hv)⟩
         | none =>
-          have ih := dispatch seIdx fn upv h ρ stk sv endPc alts cs
+          have ih := dispatch seIdx fn upv h tail ρ stk sv endPc alts cs
             (T + (testCode seIdx p st).1.length) (B + c.length + 1) n st
             (fun a ha => hok a (by simp [ha])) (fun a ha => hnr a (by simp [ha])) hz
             (by simpa using hl)
             (hseg.right.to (by rw [patchLast_length])) htail
-          exact ⟨fun v hv => (hnext hm).trans (ih.1 v hv), fun hv => (hnext hm).thenErr (ih.2 hv)⟩
+          exact ⟨fun v hv => (ih.1 v hv).prepend (hnext hm), fun hv => (hnext hm).thenErr (ih.2 hv)⟩
 
 theorem compileBody_match (seIdx s alts tail b st) :
     compileBody seIdx (.match_ s alts) tail b st =
@@ -1300,10 +1632,10 @@ theorem compileBody_match (seIdx s alts tail b st) :
   simp [compileBody, compileE]
 
 /-- `Match`: scrutinee, tests, alternatives. -/
-theorem match_spec {seIdx : Nat} {s : Expr} {alts : List (Pat × Expr)}
-    (hs : WrapSpec seIdx s) (hpat : ∀ a ∈ alts, patOk a.1 = true)
-    (hnr : ∀ a ∈ alts, isRec a.1 = false) (ha : AltsSpec seIdx alts) :
-    BodySpec seIdx (.match_ s alts) := by
+theorem match_spec {seIdx : Nat} {Φ : List (Sym × Nat)} {s : Expr} {alts : List (Pat × Expr)}
+    (hs : WrapSpec seIdx Φ s) (hpat : ∀ a ∈ alts, patOk a.1 = true)
+    (hnr : ∀ a ∈ alts, isRec a.1 = false) (ha : AltsSpec seIdx Φ alts) :
+    BodySpec seIdx Φ (.match_ s alts) := by
   intro tail b st S rest hsc
   obtain ⟨hs0, hz0, hx0, hd0⟩ := hs false b st
   rw [compileBody_match]
@@ -1330,23 +1662,23 @@ theorem match_spec {seIdx : Nat} {s : Expr} {alts : List (Pat × Expr)}
       simp at he; subst he
       exact herr0 he0
     | ok sv =>
-      have ex0 := hok0 sv he0
+      have ex0 := (hok0 sv he0).exec
       have hdyn := had fn upv fv h ρ stk sv (endOf (b + R0.1.length + testsLen TS) RA.1) hlen
         (by rw [hs0]; exact hag) hdum htab
         (hseg.right.to (by simp only [List.length_append, hptl]; omega))
-      have hd := dispatch seIdx fn upv h ρ stk sv (endOf (b + R0.1.length + testsLen TS) RA.1)
+      have hd := dispatch seIdx fn upv h tail ρ stk sv (endOf (b + R0.1.length + testsLen TS) RA.1)
         alts RA.1 (b + R0.1.length) (b + R0.1.length + testsLen TS) n R0.2 hpat hnr
         (by rw [hz0, hlen]) ha3 (by rw [hTS]; exact hseg.left.right) hdyn
       refine ⟨fun v hv => ⟨[], rfl, ?_⟩, fun hv => ex0.thenErr (hd.2 hv)⟩
-      exact (ex0.trans (hd.1 v hv)).to
+      exact ((hd.1 v hv).prepend ex0).to
         (by simp only [List.length_append, hptl]; omega) (by simp)
 
 /-- `Match` with a record pattern as its only alternative (what a projection `e.field` and
     `let { … } = e` become): no test, the prologue starts right after the scrutinee. -/
-theorem match_spec_record {seIdx : Nat} {s : Expr} {p : Pat} {e : Expr}
-    (hs : WrapSpec seIdx s) (hp : patOk p = true) (hr : isRec p = true)
-    (ha : AltsSpec seIdx [(p, e)]) :
-    BodySpec seIdx (.match_ s [(p, e)]) := by
+theorem match_spec_record {seIdx : Nat} {Φ : List (Sym × Nat)} {s : Expr} {p : Pat} {e : Expr}
+    (hs : WrapSpec seIdx Φ s) (hp : patOk p = true) (hr : isRec p = true)
+    (ha : AltsSpec seIdx Φ [(p, e)]) :
+    BodySpec seIdx Φ (.match_ s [(p, e)]) := by
   intro tail b st S rest hsc
   obtain ⟨hs0, hz0, hx0, hd0⟩ := hs false b st
   rw [compileBody_match]
@@ -1377,7 +1709,7 @@ theorem match_spec_record {seIdx : Nat} {s : Expr} {p : Pat} {e : Expr}
         simp at he; subst he
         exact herr0 he0
       | ok sv =>
-        have ex0 := hok0 sv he0
+        have ex0 := (hok0 sv he0).exec
         have hdyn := had fn upv fv h ρ stk sv (endOf (b + R0.1.length) [c]) hlen
           (by rw [hs0]; exact hag) hdum htab hseg.right
         obtain ⟨hhead, _⟩ := hdyn
@@ -1396,50 +1728,59 @@ theorem match_spec_record {seIdx : Nat} {s : Expr} {p : Pat} {e : Expr}
             | some ρ' =>
               obtain ⟨h1, h2⟩ := hhead k ρ' hm
               refine ⟨fun v hv => ⟨[], rfl, ?_⟩, fun hv => ex0.thenErr (h2 hv)⟩
-              exact (ex0.trans (h1 v hv)).to hend.symm (by simp)
+              exact ((h1 v hv).prepend ex0).to hend.symm (by simp)
             | none =>
               cases k <;> simp [evalAlts]
 
 /-! ### The fragment -/
 
 mutual
-/-- F1: constants, identifiers (stack slots and upvalues), `Cast`, non-recursive `Let`, the
-    primitive binary operators that are single instructions, `Data` (variants, arrays, records),
-    `&&`, `||`, `Match` over constructor / identifier / int, char, byte literal patterns. -/
-def inF : Expr → Bool
+/-- The proved fragment, relative to the function variables `Φ` (variables known to hold
+    closures, with their arity): constants, identifiers (stack slots and upvalues) other than
+    function variables, `Cast`, non-recursive `Let`, the primitive binary operators that are
+    single instructions, `Data` (variants, arrays, records), `&&`, `||`, `Match` over
+    constructor / identifier / int, char, byte literal / closed-row record patterns, and calls
+    `f a₁ … aₙ` of a function variable with exactly its arity (in tail position or not). With
+    `Φ = []` this is F1. -/
+def inF (Φ : List (Sym × Nat)) : Expr → Bool
   | .const _ => true
-  | .ident _ => true
-  | .cast e => inF e
-  | .letE x e₁ body => decide (x ≠ dummySym) && inF e₁ && inF body
+  | .ident x => (lookupScope Φ x).isNone
+  | .cast e => inF Φ e
+  | .letE x e₁ body =>
+    decide (x ≠ dummySym) && (lookupScope Φ x).isNone && inF Φ e₁ && inF Φ body
   | .call f args =>
     (match headOf f args.length with
      | .prim _ => true
      | .and_ => true
      | .or_ => true
-     | _ => false) && inFs args
-  | .data (.variant (some _)) args => inFs args
-  | .data .array args => inFs args
-  | .data (.record _) args => inFs args
+     | .none =>
+       (match f with
+        | .ident g => lookupScope Φ g == some args.length
+        | _ => false)
+     | _ => false) && inFs Φ args
+  | .data (.variant (some _)) args => inFs Φ args
+  | .data .array args => inFs Φ args
+  | .data (.record _) args => inFs Φ args
   | .match_ s alts =>
-    inF s && inAlts alts && (alts.all (fun a => !isRec a.1) || alts.length == 1)
+    inF Φ s && inAlts Φ alts && (alts.all (fun a => !isRec a.1) || alts.length == 1)
   | _ => false
-def inFs : List Expr → Bool
+def inFs (Φ : List (Sym × Nat)) : List Expr → Bool
   | [] => true
-  | e :: es => inF e && inFs es
-def inAlts : List (Pat × Expr) → Bool
+  | e :: es => inF Φ e && inFs Φ es
+def inAlts (Φ : List (Sym × Nat)) : List (Pat × Expr) → Bool
   | [] => true
-  | (p, e) :: alts => patOk p && inF e && inAlts alts
+  | (p, e) :: alts => patOk p && patFresh Φ p && inF Φ e && inAlts Φ alts
 end
 
-theorem inAlts_patOk : ∀ (alts : List (Pat × Expr)), inAlts alts = true →
-    ∀ a ∈ alts, patOk a.1 = true
+theorem inAlts_patOk (Φ : List (Sym × Nat)) : ∀ (alts : List (Pat × Expr)),
+    inAlts Φ alts = true → ∀ a ∈ alts, patOk a.1 = true
   | [], _, a, ha => by simp at ha
   | (p, e) :: alts, h, a, ha => by
     simp only [inAlts, Bool.and_eq_true] at h
     simp only [List.mem_cons] at ha
     rcases ha with rfl | ha
-    · exact h.1.1
-    · exact inAlts_patOk alts h.2 a ha
+    · exact h.1.1.1
+    · exact inAlts_patOk Φ alts h.2 a ha
 
 /-! ### Tables -/
 
@@ -1551,6 +1892,91 @@ theorem compileBody_record (seIdx names args tail b st) :
        (((compileArgs seIdx args b st).2.addRecord names).2).emit
         (.constructRecord ((compileArgs seIdx args b st).2.addRecord names).1 args.length)) := by
   simp [compileBody]
+
+/-- loading an identifier: the instruction pushes whatever represents the variable -/
+theorem ident_spec (seIdx : Nat) (Φ : List (Sym × Nat)) (x : Sym) (tail : Bool) (b : Nat)
+    (st : FState) (S : List (Sym × Nat)) (rest : List (List (Sym × Nat))) (hsc : st.scopes = S :: rest) :
+    (compileBody seIdx (.ident x) tail b st).2.scopes = S :: rest ∧
+    (compileBody seIdx (.ident x) tail b st).2.stackSize = st.stackSize + 1 ∧
+    Ext st (compileBody seIdx (.ident x) tail b st).2 ∧
+    (compileBody seIdx (.ident x) tail b st).1.length = 1 ∧
+    ∀ (fn : Fn) (upv : List Val) (fv : List Sym) (h : Heap) (ρ : Env) (stk : List Val) (v : Val),
+      SegAt fn.instrs b (compileBody seIdx (.ident x) tail b st).1 →
+      Tables (compileBody seIdx (.ident x) tail b st).2 fn fv →
+      Agree h Φ fv upv st.scopes ρ stk → lookup ρ x = some v →
+      ∃ v', RV h Φ x v v' ∧ Exec fn upv h b stk (b + 1) (stk ++ [v']) := by
+  cases hl : lookupScopes st.scopes x with
+  | some i =>
+    refine ⟨by simpa [compileBody, loadIdent, hl, FState.emit] using hsc,
+      by simp [compileBody, loadIdent, hl, FState.emit, adjustSize, Instr.adjust],
+      by simpa [compileBody, loadIdent, hl] using (same_emit st _).ext,
+      by simp [compileBody, loadIdent, hl], ?_⟩
+    intro fn upv fv h ρ stk v hseg htab hag hlk
+    rcases hag x v hlk with ⟨j, v', hj, hv, hr⟩ | ⟨hn, _⟩
+    · rw [hl] at hj; cases hj
+      simp [compileBody, loadIdent, hl] at hseg
+      exact ⟨v', hr, Exec.step hseg.head (by simp [stepInstr, hv])⟩
+    · rw [hl] at hn; cases hn
+  | none =>
+    obtain ⟨hidx, hext, hsc', hz'⟩ := upvar_spec st x
+    refine ⟨by simp only [compileBody, loadIdent, hl, FState.emit, hsc']; exact hsc,
+      by simp [compileBody, loadIdent, hl, FState.emit, adjustSize, Instr.adjust, hz'],
+      by simpa [compileBody, loadIdent, hl] using hext.trans (same_emit _ _).ext,
+      by simp [compileBody, loadIdent, hl], ?_⟩
+    intro fn upv fv h ρ stk v hseg htab hag hlk
+    rcases hag x v hlk with ⟨j, v', hj, _, _⟩ | ⟨_, hu⟩
+    · rw [hl] at hj; cases hj
+    · simp only [compileBody, loadIdent, hl] at hseg htab
+      have hk' := indexOfSym_prefix _ _ x _ (htab.of_ext (same_emit _ _).ext).1 hidx
+      obtain ⟨v', hu', hr⟩ := hu _ hk'
+      exact ⟨v', hr, Exec.step hseg.head (by simp [stepInstr, hu'] :
+        stepInstr fn upv (.pushUpVar (st.upvar x).1) b stk h = .next (b + 1) (stk ++ [v']) h)⟩
+
+/-- the same for `compile` of an identifier (the head of a call): no variable is left to slide -/
+theorem head_spec (seIdx : Nat) (Φ : List (Sym × Nat)) (x : Sym) (b : Nat) (st : FState) :
+    (compileE seIdx (.ident x) false b st).2.scopes = st.scopes ∧
+    (compileE seIdx (.ident x) false b st).2.stackSize = st.stackSize + 1 ∧
+    Ext st (compileE seIdx (.ident x) false b st).2 ∧
+    (compileE seIdx (.ident x) false b st).1.length = 1 ∧
+    ∀ (fn : Fn) (upv : List Val) (fv : List Sym) (h : Heap) (ρ : Env) (stk : List Val) (v : Val),
+      SegAt fn.instrs b (compileE seIdx (.ident x) false b st).1 →
+      Tables (compileE seIdx (.ident x) false b st).2 fn fv →
+      Agree h Φ fv upv st.scopes ρ stk → lookup ρ x = some v →
+      ∃ v', RV h Φ x v v' ∧ Exec fn upv h b stk (b + 1) (stk ++ [v']) := by
+  obtain ⟨h1, h2, h3, h4, h5⟩ := ident_spec seIdx Φ x false b st.enterScope [] st.scopes rfl
+  have hex : (compileBody seIdx (.ident x) false b st.enterScope).2.exitScope =
+      (0, { (compileBody seIdx (.ident x) false b st.enterScope).2 with scopes := st.scopes }) := by
+    simp [FState.exitScope, h1]
+  have hcode : (compileE seIdx (.ident x) false b st).1 =
+      (compileBody seIdx (.ident x) false b st.enterScope).1 := by
+    simp [compileE, finishScope, hex, slideCode]
+  have hst : (compileE seIdx (.ident x) false b st).2 =
+      { (compileBody seIdx (.ident x) false b st.enterScope).2 with scopes := st.scopes } := by
+    simp [compileE, finishScope, hex]
+  refine ⟨by rw [hst], by rw [hst]; simpa [FState.enterScope] using h2,
+    by rw [hst]; exact ((same_enter st).ext.trans h3).trans ⟨List.prefix_refl _, List.prefix_refl _, List.prefix_refl _⟩,
+    by rw [hcode]; exact h4, ?_⟩
+  intro fn upv fv h ρ stk v hseg htab hag hlk
+  rw [hcode] at hseg
+  rw [hst] at htab
+  exact h5 fn upv fv h ρ stk v hseg htab (by simpa [FState.enterScope] using hag.enter) hlk
+
+theorem compileBody_call (seIdx f args tail b st) (hh : headOf f args.length = .none) :
+    compileBody seIdx (.call f args) tail b st =
+      ((compileE seIdx f false b st).1 ++
+        (compileArgs seIdx args (b + (compileE seIdx f false b st).1.length)
+          (compileE seIdx f false b st).2).1 ++
+        [if tail then Instr.tailCall args.length else Instr.call args.length],
+       (compileArgs seIdx args (b + (compileE seIdx f false b st).1.length)
+          (compileE seIdx f false b st).2).2.emit
+        (if tail then Instr.tailCall args.length else Instr.call args.length)) := by
+  simp [compileBody, compileE, hh]
+
+theorem adjustSize_call (i : Instr) (n m : Nat) (hi : i.adjust = -(n : Int)) :
+    adjustSize i (m + 1 + n) = m + 1 := by
+  unfold adjustSize
+  rw [hi]
+  split <;> omega
 
 mutual
 /-- The compiler-correctness invariant for every expression of the fragment. -/
@@ -1723,7 +2149,7 @@ theorem body_spec (seIdx : Nat) : ∀ (e : Expr), inF e = true → BodySpec seId
         exact herr1 he1
       | ok v₁ =>
         have ex1 := hok1 v₁ he1
-        have hag' : Agree fv upv ((compileE seIdx e₁ false b st).2.newStackVar x).scopes
+        have hag' : Agree h Φ fv upv ((compileE seIdx e₁ false b st).2.newStackVar x).scopes
             ((x, v₁) :: ρ) (stk ++ [v₁]) := by
           rw [hsc', ← hlen]
           rw [hsc] at hag
@@ -2077,197 +2503,5 @@ theorem args_spec (seIdx : Nat) : ∀ (es : List Expr), inFs es = true → ArgsS
     simp only [inFs, Bool.and_eq_true] at hF
     exact args_cons (wrap_of_body (body_spec seIdx e hF.1)) (args_spec seIdx es hF.2)
 end
-
-/-! ### From the frame-local machine to the whole machine -/
-
-theorem step_of_local {s : State} {fr : Frame} {rest : List Frame} {fn : Fn} {upv : List Val}
-    {pc' : Nat} {loc' : List Val} {h' : Heap}
-    (hf : s.frames = fr :: rest) (hc : s.heap.clos[fr.clos]? = some (fn, upv))
-    (hs : stepLocal fn upv fr.pc (s.stack.drop fr.offset) s.heap = .next pc' loc' h') :
-    step s = .running { stack := s.stack.take fr.offset ++ loc',
-                        frames := { fr with pc := pc' } :: rest, heap := h' } := by
-  simp [step, hf, hc, hs]
-
-theorem step_of_local_err {s : State} {fr : Frame} {rest : List Frame} {fn : Fn} {upv : List Val}
-    {e : Err}
-    (hf : s.frames = fr :: rest) (hc : s.heap.clos[fr.clos]? = some (fn, upv))
-    (hs : stepLocal fn upv fr.pc (s.stack.drop fr.offset) s.heap = .err e) :
-    step s = .err e := by
-  simp [step, hf, hc, hs]
-
-/-- A run of the frame-local machine is a run of the whole machine, in any frame of a closure
-    of that function, whatever lies below the frame on the value stack and in the frame list. -/
-theorem run_of_exec {fn : Fn} {upv : List Val} {h : Heap} {pc : Nat} {stk : List Val} {pc' : Nat}
-    {stk' : List Val} (a : Exec fn upv h pc stk pc' stk') :
-    ∀ (below : List Val) (fr : Frame) (rest : List Frame), fr.offset = below.length →
-      h.clos[fr.clos]? = some (fn, upv) →
-      ∃ n, ∀ m,
-        run (n + m) { stack := below ++ stk, frames := { fr with pc := pc } :: rest, heap := h } =
-        run m { stack := below ++ stk', frames := { fr with pc := pc' } :: rest, heap := h } := by
-  induction a with
-  | refl => intro below fr rest _ _; exact ⟨0, by simp⟩
-  | @cons pc stk pc₁ stk₁ pc₂ stk₂ hs _ ih =>
-    intro below fr rest ho hc
-    obtain ⟨n, hn⟩ := ih below fr rest ho hc
-    refine ⟨n + 1, fun m => ?_⟩
-    have hstep := step_of_local (s := ⟨below ++ stk, { fr with pc := pc } :: rest, h⟩)
-      (fr := { fr with pc := pc }) (rest := rest) rfl hc (by simpa [ho] using hs)
-    rw [Nat.add_right_comm]
-    simp only [run, hstep]
-    simpa [ho] using hn m
-
-theorem run_of_execErr {fn : Fn} {upv : List Val} {h : Heap} {pc : Nat} {stk : List Val} {e : Err}
-    (a : ExecErr fn upv h pc stk e) (below : List Val) (fr : Frame) (rest : List Frame)
-    (ho : fr.offset = below.length) (hc : h.clos[fr.clos]? = some (fn, upv)) :
-    ∃ n, ∀ m,
-      run (n + m) { stack := below ++ stk, frames := { fr with pc := pc } :: rest, heap := h } =
-        .error e := by
-  obtain ⟨pc', stk', hex, herr⟩ := a
-  obtain ⟨n, hn⟩ := run_of_exec hex below fr rest ho hc
-  refine ⟨n + 1, fun m => ?_⟩
-  rw [Nat.add_assoc, hn, Nat.add_comm]
-  have hstep := step_of_local_err (s := ⟨below ++ stk', { fr with pc := pc' } :: rest, h⟩)
-    (fr := { fr with pc := pc' }) (rest := rest) rfl hc (by simpa [ho] using herr)
-  simp only [run, hstep]
-
-/-- A module whose code runs to its `Return` with `[v]` on the frame: `runModule` answers `v`. -/
-theorem runModule_of_exec {main : Fn} {globals : List Val} {pcR : Nat} {v : Val}
-    (a : Exec main globals { clos := [(main, globals)], data := [] } 0 [] pcR [v])
-    (hret : main.instrs[pcR]? = some .ret) :
-    ∃ n, ∀ m, runModule (n + m) main globals = .ok (v, { clos := [(main, globals)], data := [] }) := by
-  obtain ⟨n, hn⟩ := run_of_exec a [.cref 0] { offset := 1, excess := false, clos := 0, pc := 0 } []
-    rfl rfl
-  refine ⟨n + 2, fun m => ?_⟩
-  have h1 : runModule (n + 2 + m) main globals =
-      run (2 + m) { stack := [.cref 0] ++ [v],
-                    frames := [{ offset := 1, excess := false, clos := 0, pc := pcR }],
-                    heap := { clos := [(main, globals)], data := [] } } := by
-    rw [Nat.add_assoc]
-    exact hn (2 + m)
-  rw [h1, show 2 + m = (m + 1) + 1 by omega]
-  simp [run, step, stepLocal, hret, stepInstr, popN]
-
-theorem runModule_of_execErr {main : Fn} {globals : List Val} {e : Err}
-    (a : ExecErr main globals { clos := [(main, globals)], data := [] } 0 [] e) :
-    ∃ n, ∀ m, runModule (n + m) main globals = .error e :=
-  run_of_execErr a [.cref 0] { offset := 1, excess := false, clos := 0, pc := 0 } [] rfl rfl
-
-/-- **Call / Return with frames, exact arity** (thread.rs `Call` :2183, `do_call` :2752,
-    `call_function_with_upvars` `Ordering::Equal` :2711, `Return` :2527): when the callee's code,
-    started at 0 on its arguments, runs to a `Return` with `args ++ [v]`, a `Call n` in the
-    caller replaces function and arguments by `v`, leaves everything below untouched (the
-    caller's locals, the rest of the value stack, the other frames, the heap) and the caller
-    resumes at the next instruction. -/
-theorem call_return_exact {fn g : Fn} {upv gupv : List Val} {h : Heap} {pc pcR id n : Nat}
-    {below stk args : List Val} {v : Val} {fr : Frame} {rest : List Frame}
-    (ho : fr.offset = below.length) (hpc : fr.pc = pc)
-    (hc : h.clos[fr.clos]? = some (fn, upv)) (hi : fn.instrs[pc]? = some (.call n))
-    (hg : h.clos[id]? = some (g, gupv)) (hn : g.args = n) (hargs : args.length = n)
-    (hbody : Exec g gupv h 0 args pcR (args ++ [v])) (hret : g.instrs[pcR]? = some .ret) :
-    ∃ k, ∀ m,
-      run (k + m) { stack := below ++ (stk ++ [Val.cref id] ++ args), frames := fr :: rest, heap := h } =
-      run m { stack := below ++ (stk ++ [v]), frames := { fr with pc := pc + 1 } :: rest, heap := h } := by
-  -- the callee's frame
-  obtain ⟨k, hk⟩ := run_of_exec hbody (below ++ stk ++ [Val.cref id])
-    { offset := (below ++ stk ++ [Val.cref id]).length, excess := false, clos := id, pc := 0 }
-    ({ fr with pc := pc + 1 } :: rest) rfl hg
-  refine ⟨k + 2, fun m => ?_⟩
-  -- the `Call`
-  have hidx : (below ++ (stk ++ [Val.cref id] ++ args))[(below ++ (stk ++ [Val.cref id] ++ args)).length - 1 - n]?
-      = some (Val.cref id) := by
-    have : (below ++ (stk ++ [Val.cref id] ++ args)).length - 1 - n = (below ++ stk).length := by
-      simp [hargs]; omega
-    have e1 : below ++ (stk ++ [Val.cref id] ++ args) = (below ++ stk) ++ (Val.cref id :: args) := by
-      simp
-    rw [this, e1, List.getElem?_append_right (Nat.le_refl _)]
-    simp
-  have hstep1 : step { stack := below ++ (stk ++ [Val.cref id] ++ args), frames := fr :: rest, heap := h } =
-      .running ⟨below ++ stk ++ [Val.cref id] ++ args,
-                 (⟨(below ++ stk ++ [Val.cref id]).length, false, id, 0⟩ : Frame) ::
-                   ({ fr with pc := pc + 1 } : Frame) :: rest, h⟩ := by
-    subst hpc
-    have hlen : ¬ ((below ++ (stk ++ [Val.cref id] ++ args)).length < n + 1) := by simp [hargs]; omega
-    simp only [step, hc, stepLocal, hi, stepInstr, doCall, hlen, if_false, hidx, calleeOf, hg,
-      Option.map_some, callWith, Callee.args, hn, Nat.lt_irrefl, if_true]
-    simp [hargs, ← List.append_assoc]
-  -- the `Return`
-  have hstep3 : step ⟨below ++ stk ++ [Val.cref id] ++ (args ++ [v]),
-                 (⟨(below ++ stk ++ [Val.cref id]).length, false, id, pcR⟩ : Frame) ::
-                   ({ fr with pc := pc + 1 } : Frame) :: rest, h⟩ =
-      .running { stack := below ++ (stk ++ [v]), frames := { fr with pc := pc + 1 } :: rest, heap := h } := by
-    have hd : List.drop (below ++ stk ++ [Val.cref id]).length (below ++ stk ++ [Val.cref id] ++ (args ++ [v]))
-        = args ++ [v] := by simp
-    have hp : popN (below ++ stk ++ [Val.cref id] ++ (args ++ [v])) ((args ++ [v]).length + 1) = below ++ stk := by
-      have : below ++ stk ++ [Val.cref id] ++ (args ++ [v]) = (below ++ stk) ++ ([Val.cref id] ++ (args ++ [v])) := by
-        simp
-      rw [this]
-      exact popN_append _ _ _ (by simp)
-    have hst : below ++ stk ++ [Val.cref id] ++ (args ++ [v]) =
-        (below ++ stk ++ [Val.cref id] ++ args) ++ [v] := by simp
-    have hgl : (below ++ stk ++ [Val.cref id] ++ (args ++ [v])).getLast? = some v := by
-      rw [hst]; exact getLast?_snoc _ v
-    have hlen : ¬ ((below ++ stk ++ [Val.cref id] ++ (args ++ [v])).length < (args ++ [v]).length + 1) := by
-      simp; omega
-    have htk : List.take (below ++ stk ++ [Val.cref id]).length (below ++ stk ++ [Val.cref id] ++ (args ++ [v]))
-        = below ++ stk ++ [Val.cref id] := List.take_left' rfl
-    simp only [step, hg, stepLocal, hd, hret, stepInstr, hlen, if_false, hgl, hp]
-    simp
-  have r1 : ∀ j, run (j + 1) ⟨below ++ (stk ++ [Val.cref id] ++ args), fr :: rest, h⟩ =
-      run j ⟨below ++ stk ++ [Val.cref id] ++ args,
-        (⟨(below ++ stk ++ [Val.cref id]).length, false, id, 0⟩ : Frame) ::
-          ({ fr with pc := pc + 1 } : Frame) :: rest, h⟩ := fun j => by
-    simp only [run, hstep1]
-  have r3 : ∀ j, run (j + 1) ⟨below ++ stk ++ [Val.cref id] ++ (args ++ [v]),
-        (⟨(below ++ stk ++ [Val.cref id]).length, false, id, pcR⟩ : Frame) ::
-          ({ fr with pc := pc + 1 } : Frame) :: rest, h⟩ =
-      run j ⟨below ++ (stk ++ [v]), ({ fr with pc := pc + 1 } : Frame) :: rest, h⟩ := fun j => by
-    simp only [run, hstep3]
-  calc run (k + 2 + m) ⟨below ++ (stk ++ [Val.cref id] ++ args), fr :: rest, h⟩
-      = run (k + (m + 1) + 1) ⟨below ++ (stk ++ [Val.cref id] ++ args), fr :: rest, h⟩ := by
-        rw [show k + 2 + m = k + (m + 1) + 1 by omega]
-    _ = _ := r1 _
-    _ = _ := hk (m + 1)
-    _ = _ := r3 m
-
-/-- The function `compile_lambda` builds for a closure `\params -> body` with `body` in the
-    fragment, started at 0 on its arguments, reaches its `Return` with the value `evalCore`
-    gives to the body under `params ↦ args` (the closure's own environment living in the
-    upvalues). -/
-theorem lambda_body_exec (seIdx : Nat) (params : List Sym) (body : Expr) (hF : inF body = true)
-    (hnd : params.contains dummySym = false) (gupv : List Val) (h : Heap) (fuel : Nat) (ρc : Env)
-    (args : List Val) (v : Val) (hlen : params.length = args.length)
-    (hdum : lookup ρc dummySym = none)
-    (hup : ∀ x w, lookup ρc x = some w →
-      ∃ k, indexOfSym (compileE seIdx body true 0 (innerStart params)).2.freeVars x = some k ∧
-        gupv[k]? = some w)
-    (hev : evalCore fuel (bindAll params args ρc) body = .ok v) :
-    ∃ pcR, Exec (mkFn params.length (compileE seIdx body true 0 (innerStart params)).1
-          (compileE seIdx body true 0 (innerStart params)).2) gupv h 0 args pcR (args ++ [v]) ∧
-      (mkFn params.length (compileE seIdx body true 0 (innerStart params)).1
-          (compileE seIdx body true 0 (innerStart params)).2).instrs[pcR]? = some .ret := by
-  obtain ⟨hsc, hsz⟩ := pushVars_scopes params { FState.empty with scopes := [[]] } [] [] rfl
-  have hsc' : (innerStart params).scopes = (varsOf 0 params ++ []) :: [] := hsc
-  have hsz' : (innerStart params).stackSize = params.length := by
-    have : (innerStart params).stackSize = 0 + params.length := hsz
-    simpa using this
-  obtain ⟨_, _, _, hd⟩ := wrap_of_body (body_spec seIdx body hF) true 0 (innerStart params)
-  have hbase : Agree (compileE seIdx body true 0 (innerStart params)).2.freeVars gupv ([] :: []) ρc [] := by
-    intro x w hx
-    exact Or.inr ⟨rfl, hup x w hx⟩
-  have hag := varsOf_agree _ gupv params args [] ρc [] [] hlen hbase
-  obtain ⟨hok, _⟩ := hd (mkFn params.length (compileE seIdx body true 0 (innerStart params)).1
-      (compileE seIdx body true 0 (innerStart params)).2) gupv
-    (compileE seIdx body true 0 (innerStart params)).2.freeVars h fuel (bindAll params args ρc) args
-    (by
-      intro k hk
-      show ((compileE seIdx body true 0 (innerStart params)).1 ++ [Instr.ret])[0 + k]? = _
-      rw [Nat.zero_add, List.getElem?_append_left hk])
-    ⟨List.prefix_refl _, List.prefix_refl _, List.prefix_refl _⟩
-    (by rw [hsz', hlen])
-    (by rw [hsc']; simpa using hag)
-    (bindAll_dummy params args ρc hnd hdum)
-  refine ⟨(compileE seIdx body true 0 (innerStart params)).1.length, by simpa using hok v hev, ?_⟩
-  show ((compileE seIdx body true 0 (innerStart params)).1 ++ [Instr.ret])[_]? = _
-  simp
 
 end GluonModel.Proofs.Compile
